@@ -38,6 +38,13 @@ def build() -> Check:
     upd_traces = [t for t in cc if dict(t.pc).get("operation_update") == "update"]
     ck.floor("create_checkpoint_update_traces", len(upd_traces), 4)
     b_guard, b_lock, b_mark = [], [], []
+    hca_ = prog.cls("state", "ExecutionState").methods.get("_has_completed_ancestor")
+    if hca_ is None:
+        raise AnalysisError("ExecutionState._has_completed_ancestor not found")
+    walk_sets = {n_.comparators[0].attr for n_ in ast.walk(hca_.node) if isinstance(n_, ast.Compare) and len(n_.ops) == 1 and isinstance(n_.ops[0], ast.In)
+                 and isinstance(n_.comparators[0], ast.Attribute) and isinstance(n_.comparators[0].value, ast.Name) and n_.comparators[0].value.id == "self"}
+    if not walk_sets:
+        raise AnalysisError("_has_completed_ancestor: no membership test on a set of the state found")
     n_orphan = 0
     guard_keys = set()
     for t in upd_traces:
@@ -77,6 +84,14 @@ def build() -> Check:
             b_mark.append((f"a CONTEXT {act} does not mark its descendants", t))
         if marked and not (typ == "CONTEXT" and act in ("SUCCEED", "FAIL")):
             b_mark.append((f"descendants are marked on {typ} {act}", t))
+        if typ == "CONTEXT" and act in ("SUCCEED", "FAIL"):
+            # marking covers the descendants that exist NOW; an operation first started afterwards is in no pre-computed set and is stopped only by the
+            # ancestor walk - which has to find the completed context itself in one of the sets it reads (mutscan: the `add` deleted, nothing noticed)
+            reg = [e for e in evs if e.kind == "EXT" and e.data.get("method") == "add" and any(w in e.data.get("recv", "") for w in walk_sets)
+                   and [a_ for a_ in e.data.get("args", [])][:1] == ["update.operation_id"]]
+            if not reg:
+                b_mark.append((f"a CONTEXT {act} is not registered in any set the ancestor walk reads ({sorted(walk_sets)}): an operation first started beneath it "
+                               "afterwards passes the guard", t))
         for e in t.kinds("MARK_ORPHANS"):
             if e.data["root"] != "update.operation_id":
                 b_mark.append((f"marking starts from {e.data['root']} instead of the completing context", t))
